@@ -863,8 +863,9 @@ func (w *World) rulesVocab(out *[]Obligation) {
 				if km.Default == nil {
 					add(false, "R09.default", "kvm.default", km.Fn, "kvm.Set has no default arm")
 				} else {
-					ok, why := p.isErrInvalidMetricReturn(km.Default.Body, paramObjs(p.Info, km.Fn)[0], nil)
-					add(ok, "R09.default", "kvm.default", km.Default, why)
+					refuses, typed, why := p.defaultArmError(km.Default.Body, paramObjs(p.Info, km.Fn)[0], nil)
+					add(refuses, "R09.default", "kvm.default", km.Default, map[bool]string{true: "an unknown abbreviation is refused with a non-nil error", false: "an unknown abbreviation is not refused: " + why}[refuses])
+					add(typed, "R18.default", "kvm.default", km.Default, why)
 				}
 			}
 		}
